@@ -388,6 +388,13 @@ class Canon:
                 if neg:
                     return self.pred(CMP(neg, inner[2], inner[3]))
             return 'not(%s)' % self.pred(inner)
+        if g[0] == 'cmp' and g[1] in ('Is', 'IsNot', 'Eq', 'NotEq') and NONE in (g[2], g[3]):
+            other = g[2] if g[3] == NONE else g[3]
+            import re as _re
+            if other[0] == 'sym' and _re.fullmatch(r'arg\d+', other[1]):
+                return 'false' if g[1] in ('Is', 'Eq') else 'true'      # a supplied optional argument is a number
+            if is_num(other):
+                return 'false' if g[1] in ('Is', 'Eq') else 'true'
         if g[0] == 'cmp' and g[1] in ('Is', 'IsNot', 'Eq', 'NotEq') and self.is_pair(g[2]) and self.is_pair(g[3]):
             a, b = sorted([self.pairname(g[2]), self.pairname(g[3])])
             return ('same(%s,%s)' if g[1] in ('Is', 'Eq') else 'not same(%s,%s)') % (a, b)
@@ -505,14 +512,14 @@ class Canon:
                 return self.lin(t[2]) + [Mono(pneg(m.coef), m.var, m.sumvar, m.preds) for m in self.lin(t[3])]
             if op == 'Mult':
                 la, lb = self.lin(t[2]), self.lin(t[3])
-                if all(m.var is None and m.sumvar is None for m in la):
-                    c = {}
-                    for m in la: c = padd(c, m.coef)
-                    return [Mono(pmul(c, m.coef), m.var, m.sumvar, m.preds) for m in lb]
-                if all(m.var is None and m.sumvar is None for m in lb):
-                    c = {}
-                    for m in lb: c = padd(c, m.coef)
-                    return [Mono(pmul(m.coef, c), m.var, m.sumvar, m.preds) for m in la]
+                for consts, others in ((la, lb), (lb, la)):
+                    if all(m.var is None and m.sumvar is None for m in consts):
+                        if not any(m.preds for m in consts):
+                            c = {}
+                            for m in consts: c = padd(c, m.coef)
+                            return [Mono(pmul(c, m.coef), m.var, m.sumvar, m.preds) for m in others]
+                        # conditional constants ([g] * c): distribute, keeping the condition on each product
+                        return [Mono(pmul(mc.coef, m.coef), m.var, m.sumvar, tuple(m.preds) + tuple(mc.preds)) for mc in consts for m in others]
                 raise Unknown('non-linear product ' + show(t)[:80])
         if k == 'un' and t[1] == 'USub':
             return [Mono(pneg(m.coef), m.var, m.sumvar, m.preds) for m in self.lin(t[2])]
@@ -521,8 +528,16 @@ class Canon:
         if k in ('prefix', 'carried'):
             return self.linprefix(t)
         if k == 'ite':
-            # ite(c, A, B) with A, B linear:  B + [c]*(A-B)  -- only the guard-as-predicate form on sums is supported
-            raise Unknown('conditional linear expression ' + show(t)[:80])
+            # ite(c, A, B) with A, B linear:  B + [c] * (A - B)
+            la, lb = self.lin(t[2]), self.lin(t[3])
+            cond = self.conj(t[1])
+            d = {}
+            for m in la:
+                d[m.key()] = (padd(d[m.key()][0], m.coef) if m.key() in d else m.coef, m)
+            for m in lb:
+                d[m.key()] = (psub(d[m.key()][0], m.coef) if m.key() in d else pneg(m.coef), m)
+            diff = [Mono(c, m.var, m.sumvar, tuple(m.preds) + tuple(cond)) for c, m in d.values() if c]
+            return lb + diff
         return [Mono(self.poly(t))]
 
     def linsum(self, a):
@@ -596,6 +611,16 @@ class Canon:
                         raise Unknown('nested sums')
                     sumvar = SORTVAR[kk[1]] + "'"
                     self.names[b[1]] = sumvar
+                elif kk[0] == 'varelems':
+                    # for d in model.<variable array>: the element IS the variable letter[k']
+                    if sumvar:
+                        raise Unknown('nested sums')
+                    letter, sort = self.arr_letter[kk[1]]
+                    sumvar = SORTVAR.get(sort, 'k')        # same summation letter as sum(model.<array>) gets
+                    self.names[b[1]] = sumvar
+                    if not hasattr(self, 'varbinders') or self.varbinders is None:
+                        self.varbinders = {}
+                    self.varbinders[b[1]] = '%s[%s]' % (letter, sumvar)
                 elif kk[0] == 'while':
                     if sumvar:
                         raise Unknown('nested sums')
@@ -609,7 +634,7 @@ class Canon:
             for m in inner:
                 if m.sumvar:
                     raise Unknown('nested sums')
-                out.append(Mono(m.coef, m.var, sumvar, tuple(preds)))
+                out.append(Mono(m.coef, m.var, sumvar, tuple(preds) + tuple(m.preds)))
             return out
         finally:
             self.names = saved
